@@ -18,12 +18,12 @@ import (
 )
 
 type fpSc struct {
-	Lk       lkSc  `json:"lookup"`
-	Count    int   `json:"count"`
-	Local    []int `json:"local"`      // provider refs stored locally
-	LocalAdr bool  `json:"local_addr"` // local providers have addresses in the peerstore
-	CancelMs int   `json:"cancel_ms,omitempty"`
-	SlowReadMs int `json:"slow_read_ms,omitempty"` // the consumer pauses this long after every provider it reads
+	Lk         lkSc  `json:"lookup"`
+	Count      int   `json:"count"`
+	Local      []int `json:"local"`      // provider refs stored locally
+	LocalAdr   bool  `json:"local_addr"` // local providers have addresses in the peerstore
+	CancelMs   int   `json:"cancel_ms,omitempty"`
+	SlowReadMs int   `json:"slow_read_ms,omitempty"` // the consumer pauses this long after every provider it reads
 }
 
 type provEmit struct {
